@@ -173,6 +173,13 @@ def _sched_cases(thorough: bool, seed: int) -> list[dict]:
     for j, st in enumerate(SCHED_STATES if thorough else ["nofolder", "cold", "D-half", "Q-mid"]):
         out.append({"kind": "sched", "n": [2, 4, 8][j % 3], "state": st, "plan": "random", "quanta": [0, 0, 1, 5], "early": True,
                     "s": rng.randrange(1 << 30)})
+    # one process sits inside the locked region for 2.5 s with the cache file open for writing (still empty or half written);
+    # the others start meanwhile and wait for the lock
+    # (the hook runs before the operation: at 'open:w' the old file is still there, at the unlock the new one is complete)
+    for j, (at, st) in enumerate([(["fcntl.flock:UN", "Q.lock"], "cold"), (["open:w", "Q"], "Q-mid"), (["fcntl.flock:UN", "D.lock"], "D-half"),
+                                  (["open:w", "D"], "D-half"), (["fcntl.flock:UN", "D.lock"], "cold"), (["open:w", "Q"], "Q-empty")]
+                                 if thorough else [(["fcntl.flock:UN", "Q.lock"], "cold"), (["open:w", "Q"], "Q-mid"), (["fcntl.flock:UN", "D.lock"], "D-half")]):
+        out.append({"kind": "sched", "n": 4, "state": st, "plan": "stall_at", "at": at, "ms": 2500, "s": j})
     n_rand, n_rdv, n_hold, n_ws = (330, 160, 0, 60) if thorough else (30, 14, 8, 6)
     for j in range(n_ws):
         out.append({"kind": "sched", "n": rng.choice([2, 3, 4]), "state": rng.choice(["cold", "valid", "D-half", "Q-mid", "both-mid", "D-frame", "clearing-warm"]),
@@ -448,6 +455,11 @@ def _judge_child(ctx, res: dict, ref: dict, what: dict, alone: bool = True) -> b
     err = res["err"]
     if err:
         mech = _escape_mechanism(err)
+        stalled = isinstance(what.get("plan"), dict) and what["plan"].get("plan") == "stall_at"
+        if mech == "lock-timeout" and stalled:
+            # the only process in the way held the lock for 2.5 s, a quarter of the lock time-out: giving up on it is a start
+            # that failed
+            mech = "lock-wait-gives-up-while-another-process-stores-the-cache"
         if mech == "lock-timeout" and not alone:
             ctx.count("lock_timeouts_not_judged")
             ctx.note("lock_timeout_not_judged", what)
@@ -1237,6 +1249,8 @@ def _case_sched(case, ctx):  # noqa: C901
                    "-e", f"inject=write:delay_enter={case['delay_us']}"]
     elif plan == "hold":
         sched = {"kind": "hold", "who": case["who"], "k": case["k"], "n": total, "seed": case["s"]}
+    elif plan == "stall_at":
+        sched = {"kind": "stall_at", "who": 0, "at": case["at"], "ms": case["ms"], "n": total, "seed": case["s"]}
     else:
         sched = {"kind": "rendezvous", "at": case["at"], "n": total, "seed": case["s"], "wait_ms": 250 + 70 * n, "after_ms": [0, 0, 1, 3]}
     try:
